@@ -158,3 +158,431 @@ Proof.
 Qed.
 
 End Enc.
+
+(* ---------- SO ... SI bracketed byte strings ---------- *)
+Fixpoint expand_runs (r : rle) : list oz :=
+  match r with [] => [] | (a, n) :: t => repeat a (Z.to_nat n) ++ expand_runs t end.
+
+Definition plain (l : list Z) : Prop := Forall (fun b => b <> esc_SO /\ b <> esc_SI) l.
+Definition seg_bytes (b : list Z * list Z) : list Z := fst b ++ esc_SI :: snd b.
+Definition block_bytes (b : list Z * list Z) : list Z := esc_SO :: seg_bytes b.
+Definition blocks_bytes (p0 : list Z) (bl : list (list Z * list Z)) : list Z := p0 ++ flat_map block_bytes bl.
+Definition block_out (b : list Z * list Z) : list Z := fst b ++ snd b.
+Definition block_marks (b : list Z * list Z) : list oz :=
+  repeat (Some esc_DEC_TAG) (length (fst b)) ++ repeat None (length (snd b)).
+Definition block_ok (b : list Z * list Z) : Prop := plain (fst b) /\ plain (snd b).
+Definition nn (r : rle) : Prop := Forall (fun p => 0 <= snd p) r.
+
+Lemma oz_eqb_eq a b : oz_eqb a b = true -> a = b.
+Proof. destruct a, b; cbn; intros H; try discriminate; [f_equal; lia|reflexivity]. Qed.
+
+Lemma append_nn r a n : nn r -> 0 <= n -> nn (rle_append_modify r a n).
+Proof.
+  unfold nn, rle_append_modify. intros Hr Hn. induction r as [|[la lr] t IH]; [repeat constructor; exact Hn|].
+  inversion Hr as [|p l Hp Ht Heq]. cbn [snd] in Hp. destruct t as [|y t'].
+  - cbn [rle_append_modify_gen]. destruct (oz_eqb la a); repeat constructor; cbn [snd]; lia.
+  - change (rle_append_modify_gen oz_eqb ((la, lr) :: y :: t') a n)
+      with ((la, lr) :: rle_append_modify_gen oz_eqb (y :: t') a n).
+    constructor; [exact Hp|apply IH, Ht].
+Qed.
+
+Lemma expand_append r a n : nn r -> 0 <= n ->
+  expand_runs (rle_append_modify r a n) = expand_runs r ++ repeat a (Z.to_nat n).
+Proof.
+  unfold nn, rle_append_modify. intros Hr Hn. induction r as [|[la lr] t IH]; [cbn; now rewrite app_nil_r|].
+  inversion Hr as [|p l Hp Ht Heq]. cbn [snd] in Hp. destruct t as [|y t'].
+  - cbn [rle_append_modify_gen]. destruct (oz_eqb la a) eqn:E.
+    + apply oz_eqb_eq in E. subst la. cbn [expand_runs]. rewrite !app_nil_r.
+      replace (Z.to_nat (lr + n)) with (Z.to_nat lr + Z.to_nat n)%nat by lia. apply repeat_app.
+    + cbn [expand_runs]. now rewrite !app_nil_r.
+  - change (rle_append_modify_gen oz_eqb ((la, lr) :: y :: t') a n)
+      with ((la, lr) :: rle_append_modify_gen oz_eqb (y :: t') a n).
+    cbn [expand_runs] in *. rewrite IH by exact Ht. now rewrite app_assoc.
+Qed.
+
+Lemma split_first_plain d p : plain d -> split_first esc_SI (d ++ esc_SI :: p) = Some (d, p).
+Proof.
+  intros Hd. induction d as [|x d IH]; cbn [app split_first].
+  - destruct (esc_SI =? esc_SI) eqn:E; [reflexivity|lia].
+  - inversion Hd as [|y l [_ Hx] Hd' Heq]. destruct (x =? esc_SI) eqn:E; [lia|]. now rewrite IH.
+Qed.
+
+Lemma drop_si_plain p : plain p -> drop_si p = p.
+Proof.
+  intros Hp. induction p as [|x p IH]; [reflexivity|]. inversion Hp as [|y l [_ Hx] Hp' Heq].
+  cbn [drop_si filter]. destruct (x =? esc_SI) eqn:E; [lia|]. cbn [negb]. f_equal. apply IH, Hp'.
+Qed.
+
+Lemma to_nat_zlen' {A} (l : list A) : Z.to_nat (zlen l) = length l.
+Proof. apply to_nat_zlen. Qed.
+
+Definition acc_ok (acc : list (list Z) * rle) (out : list Z) (marks : list oz) : Prop :=
+  concat (fst acc) = out /\ nn (snd acc) /\ expand_runs (snd acc) = marks.
+
+Lemma ate_step_block acc out marks b :
+  acc_ok acc out marks -> block_ok b ->
+  acc_ok (ate_step acc (seg_bytes b)) (out ++ block_out b) (marks ++ block_marks b).
+Proof.
+  destruct acc as [sout cout]. destruct b as [d p]. unfold acc_ok, block_ok, seg_bytes, block_out, block_marks.
+  cbn [fst snd]. intros (Ho & Hn & He) (Hd & Hp).
+  unfold ate_step. rewrite split_first_plain by exact Hd. rewrite drop_si_plain by exact Hp.
+  pose proof (zlen_nonneg d). pose proof (zlen_nonneg p).
+  destruct d as [|d0 d']; destruct p as [|p0 p']; cbn [nonempty fst snd].
+  - cbn. rewrite !app_nil_r. repeat split; assumption.
+  - rewrite concat_app, Ho. cbn [concat]. rewrite app_nil_r. cbn [app length repeat].
+    split; [reflexivity|]. split; [apply append_nn; assumption|].
+    rewrite expand_append by assumption. rewrite He, to_nat_zlen'. reflexivity.
+  - rewrite concat_app, Ho. cbn [concat]. rewrite !app_nil_r.
+    split; [reflexivity|]. split; [apply append_nn; assumption|].
+    rewrite expand_append by assumption. rewrite He, to_nat_zlen'. cbn [length repeat]. rewrite ?app_nil_r. reflexivity.
+  - rewrite !concat_app, Ho. cbn [concat]. rewrite !app_nil_r, <- app_assoc.
+    split; [reflexivity|]. split; [apply append_nn; [apply append_nn|]; assumption|].
+    rewrite !expand_append by (try apply append_nn; assumption). rewrite He, !to_nat_zlen'.
+    now rewrite <- app_assoc.
+Qed.
+
+Lemma ate_fold_blocks bl : forall acc out marks,
+  acc_ok acc out marks -> Forall block_ok bl ->
+  acc_ok (fold_left ate_step (map seg_bytes bl) acc)
+         (out ++ flat_map block_out bl) (marks ++ flat_map block_marks bl).
+Proof.
+  induction bl as [|b bl IH]; intros acc out marks Ha Hb; cbn [map fold_left flat_map].
+  - now rewrite !app_nil_r.
+  - inversion Hb as [|b0 l0 Hb0 Hbl Heq]. rewrite !app_assoc. apply IH; [|exact Hbl].
+    apply ate_step_block; assumption.
+Qed.
+
+Definition noSO (l : list Z) : Prop := Forall (fun b => b <> esc_SO) l.
+
+Lemma split_all_noSO q : noSO q -> split_all esc_SO q = [q].
+Proof.
+  intros Hq. induction q as [|x q IH]; [reflexivity|]. inversion Hq as [|y l Hx Hq' Heq].
+  cbn [split_all]. rewrite IH by exact Hq'. destruct (x =? esc_SO) eqn:E; [lia|]. reflexivity.
+Qed.
+
+Lemma split_all_sep q x : noSO q -> split_all esc_SO (q ++ esc_SO :: x) = q :: split_all esc_SO x.
+Proof.
+  intros Hq. induction q as [|y q IH]; cbn [app split_all].
+  - destruct (esc_SO =? esc_SO) eqn:E; [reflexivity|lia].
+  - inversion Hq as [|z l Hy Hq' Heq]. rewrite IH by exact Hq'. destruct (y =? esc_SO) eqn:E; [lia|]. reflexivity.
+Qed.
+
+Lemma seg_noSO b : block_ok b -> noSO (seg_bytes b).
+Proof.
+  destruct b as [d p]. unfold block_ok, seg_bytes, noSO, plain. cbn [fst snd]. intros [Hd Hp].
+  apply Forall_app. split; [eapply Forall_impl; [|exact Hd]; cbn; tauto|].
+  constructor; [vm_compute; discriminate|]. eapply Forall_impl; [|exact Hp]. cbn. tauto.
+Qed.
+
+Lemma split_all_blocks bl : forall q, noSO q -> Forall block_ok bl ->
+  split_all esc_SO (q ++ flat_map block_bytes bl) = q :: map seg_bytes bl.
+Proof.
+  induction bl as [|b bl IH]; intros q Hq Hb; cbn [flat_map map].
+  - rewrite app_nil_r. now apply split_all_noSO.
+  - inversion Hb as [|b0 l0 Hb0 Hbl Heq]. unfold block_bytes at 1. cbn [app].
+    rewrite split_all_sep by exact Hq. f_equal. apply IH; [apply seg_noSO, Hb0|exact Hbl].
+Qed.
+
+Theorem ate_bytes_blocks p0 bl :
+  plain p0 -> Forall block_ok bl ->
+  fst (ate_bytes (blocks_bytes p0 bl)) = p0 ++ flat_map block_out bl /\
+  expand_runs (snd (ate_bytes (blocks_bytes p0 bl))) = repeat None (length p0) ++ flat_map block_marks bl.
+Proof.
+  intros Hp Hb. unfold ate_bytes, blocks_bytes.
+  rewrite split_all_blocks; [|eapply Forall_impl; [|exact Hp]; cbn; tauto|exact Hb].
+  rewrite drop_si_plain by exact Hp.
+  assert (A0 : acc_ok (if nonempty p0 then [p0] else [], if nonempty p0 then [(None, zlen p0)] else [])
+                      p0 (repeat None (length p0))).
+  { destruct p0 as [|x p0']; cbn [nonempty]; unfold acc_ok; cbn [fst snd concat expand_runs length repeat].
+    - repeat split. constructor.
+    - rewrite !app_nil_r. split; [reflexivity|]. split.
+      + repeat constructor. cbn [snd]. apply zlen_nonneg.
+      + rewrite to_nat_zlen'. reflexivity. }
+  destruct bl as [|b bl]; cbn [map].
+  - cbn [flat_map]. rewrite !app_nil_r. cbn [fst snd]. destruct A0 as (_ & _ & E). split; [reflexivity|exact E].
+  - pose proof (ate_fold_blocks (b :: bl) _ _ _ A0 Hb) as F. cbn [map] in F.
+    destruct (fold_left ate_step (seg_bytes b :: map seg_bytes bl) _) as [sout cout]. cbn [fst snd] in *.
+    destruct F as (F1 & _ & F3). split; assumption.
+Qed.
+
+(* ---------- rle_product ---------- *)
+Definition pos_runs {A} (r : list (A * Z)) : Prop := Forall (fun q => 0 < snd q) r.
+
+Lemma pos_runs_len {A} (r : list (A * Z)) : pos_runs r -> 0 <= rle_len r.
+Proof.
+  induction r as [|[a n] t IH]; intros H; cbn [rle_len]; [lia|].
+  inversion H as [|q l Hq Ht Heq]. cbn [snd] in Hq. specialize (IH Ht). lia.
+Qed.
+
+Definition live (r1 r2 : Z) : nat := if negb (r1 =? 0) && negb (r2 =? 0) then 1%nat else 0%nat.
+
+Lemma rle_product_loop_len fuel : forall a1 r1 t1 a2 r2 t2 res,
+  0 <= r1 -> 0 <= r2 -> pos_runs t1 -> pos_runs t2 ->
+  (r1 = 0 -> t1 = []) -> (r2 = 0 -> t2 = []) ->
+  (length t1 + length t2 + live r1 r2 <= fuel)%nat ->
+  exists p, rle_product_loop fuel a1 r1 t1 a2 r2 t2 res = Ok p /\
+            rle_len p = rle_len res + Z.min (r1 + rle_len t1) (r2 + rle_len t2).
+Proof.
+  induction fuel as [|k IH]; intros a1 r1 t1 a2 r2 t2 res H1 H2 P1 P2 Z1 Z2 Hf; cbn [rle_product_loop];
+    pose proof (pos_runs_len t1 P1); pose proof (pos_runs_len t2 P2);
+    unfold live in Hf; destruct (negb (r1 =? 0) && negb (r2 =? 0)) eqn:E.
+  - lia.
+  - exists res. split; [reflexivity|].
+    destruct (Z.eq_dec r1 0) as [->|]; [rewrite (Z1 eq_refl); cbn [rle_len]; lia|].
+    assert (r2 = 0) by lia. subst r2. rewrite (Z2 eq_refl). cbn [rle_len]. lia.
+  - set (r := Z.min r1 r2).
+    assert (Hr : 0 < r) by (unfold r; lia).
+    (* the refill of side 1 *)
+    destruct (r1 - r =? 0) eqn:E1; destruct (r2 - r =? 0) eqn:E2.
+    + destruct t1 as [|[b1 n1] t1']; destruct t2 as [|[b2 n2] t2'].
+      * destruct (IH a1 (r1 - r) [] a2 (r2 - r) [] (rle_append_modify_gen pair_eqb res (a1, a2) r))
+          as (p & Ep & Hp); try (intros; reflexivity); try assumption; try lia.
+        { cbn [length]. unfold live. destruct (negb (r1 - r =? 0) && negb (r2 - r =? 0)) eqn:E3; lia. }
+        exists p. split; [exact Ep|]. rewrite Hp, rle_append_modify_gen_len. cbn [rle_len]. lia.
+      * inversion P2 as [|q l Hq Ht Heq]. cbn [snd] in Hq.
+        destruct (IH a1 (r1 - r) [] b2 n2 t2' (rle_append_modify_gen pair_eqb res (a1, a2) r))
+          as (p & Ep & Hp); try (intros; reflexivity); try assumption; try lia.
+        { cbn [length] in *. unfold live. destruct (negb (r1 - r =? 0) && negb (n2 =? 0)) eqn:E3; lia. }
+        exists p. split; [exact Ep|]. rewrite Hp, rle_append_modify_gen_len. cbn [rle_len] in *. lia.
+      * inversion P1 as [|q l Hq Ht Heq]. cbn [snd] in Hq.
+        destruct (IH b1 n1 t1' a2 (r2 - r) [] (rle_append_modify_gen pair_eqb res (a1, a2) r))
+          as (p & Ep & Hp); try (intros; reflexivity); try assumption; try lia.
+        { cbn [length] in *. unfold live. destruct (negb (n1 =? 0) && negb (r2 - r =? 0)) eqn:E3; lia. }
+        exists p. split; [exact Ep|]. rewrite Hp, rle_append_modify_gen_len. cbn [rle_len] in *. lia.
+      * inversion P1 as [|q l Hq Ht Heq]. cbn [snd] in Hq. inversion P2 as [|q' l' Hq' Ht' Heq']. cbn [snd] in Hq'.
+        destruct (IH b1 n1 t1' b2 n2 t2' (rle_append_modify_gen pair_eqb res (a1, a2) r))
+          as (p & Ep & Hp); try (intros; lia); try assumption; try lia.
+        { cbn [length] in *. unfold live. destruct (negb (n1 =? 0) && negb (n2 =? 0)) eqn:E3; lia. }
+        exists p. split; [exact Ep|]. rewrite Hp, rle_append_modify_gen_len. cbn [rle_len] in *. lia.
+    + destruct t1 as [|[b1 n1] t1'].
+      * destruct (IH a1 (r1 - r) [] a2 (r2 - r) t2 (rle_append_modify_gen pair_eqb res (a1, a2) r))
+          as (p & Ep & Hp); try (intros; reflexivity); try assumption; try lia.
+        { cbn [length] in *. unfold live. destruct (negb (r1 - r =? 0) && negb (r2 - r =? 0)) eqn:E3; lia. }
+        exists p. split; [exact Ep|]. rewrite Hp, rle_append_modify_gen_len. cbn [rle_len] in *. lia.
+      * inversion P1 as [|q l Hq Ht Heq]. cbn [snd] in Hq.
+        destruct (IH b1 n1 t1' a2 (r2 - r) t2 (rle_append_modify_gen pair_eqb res (a1, a2) r))
+          as (p & Ep & Hp); try (intros; lia); try assumption; try lia.
+        { cbn [length] in *. unfold live. destruct (negb (n1 =? 0) && negb (r2 - r =? 0)) eqn:E3; lia. }
+        exists p. split; [exact Ep|]. rewrite Hp, rle_append_modify_gen_len. cbn [rle_len] in *. lia.
+    + destruct t2 as [|[b2 n2] t2'].
+      * destruct (IH a1 (r1 - r) t1 a2 (r2 - r) [] (rle_append_modify_gen pair_eqb res (a1, a2) r))
+          as (p & Ep & Hp); try (intros; reflexivity); try assumption; try lia.
+        { cbn [length] in *. unfold live. destruct (negb (r1 - r =? 0) && negb (r2 - r =? 0)) eqn:E3; lia. }
+        exists p. split; [exact Ep|]. rewrite Hp, rle_append_modify_gen_len. cbn [rle_len] in *. lia.
+      * inversion P2 as [|q l Hq Ht Heq]. cbn [snd] in Hq.
+        destruct (IH a1 (r1 - r) t1 b2 n2 t2' (rle_append_modify_gen pair_eqb res (a1, a2) r))
+          as (p & Ep & Hp); try (intros; lia); try assumption; try lia.
+        { cbn [length] in *. unfold live. destruct (negb (r1 - r =? 0) && negb (n2 =? 0)) eqn:E3; lia. }
+        exists p. split; [exact Ep|]. rewrite Hp, rle_append_modify_gen_len. cbn [rle_len] in *. lia.
+    + exfalso. unfold r in *. lia.
+  - exists res. split; [reflexivity|].
+    destruct (Z.eq_dec r1 0) as [->|]; [rewrite (Z1 eq_refl); cbn [rle_len]; lia|].
+    assert (r2 = 0) by lia. subst r2. rewrite (Z2 eq_refl). cbn [rle_len]. lia.
+Qed.
+
+Theorem rle_product_len x y :
+  pos_runs x -> pos_runs y ->
+  exists p, rle_product x y = Ok p /\ rle_len p = Z.min (rle_len x) (rle_len y).
+Proof.
+  intros Px Py. unfold rle_product.
+  destruct x as [|[a1 r1] t1]; [exists []; split; [reflexivity|]; cbn [rle_len]; pose proof (pos_runs_len y Py); lia|].
+  destruct y as [|[a2 r2] t2]; [exists []; split; [reflexivity|]; cbn [rle_len]; pose proof (pos_runs_len _ Px); cbn [rle_len] in *; lia|].
+  inversion Px as [|q l Hq Ht Heq]. cbn [snd] in Hq. inversion Py as [|q' l' Hq' Ht' Heq']. cbn [snd] in Hq'.
+  destruct (rle_product_loop_len (S (length ((a1, r1) :: t1) + length ((a2, r2) :: t2))) a1 r1 t1 a2 r2 t2 [])
+    as (p & Ep & Hp); try assumption; try lia.
+  { cbn [length]. unfold live. destruct (negb (r1 =? 0) && negb (r2 =? 0)); lia. }
+  exists p. split; [exact Ep|]. rewrite Hp. cbn [rle_len]. lia.
+Qed.
+
+(* ---------- trim_text_attr_cs: text, attribute runs and charset runs of the result have one length ---------- *)
+Lemma zlen_repeat {A} (x : A) n : zlen (repeat x n) = Z.of_nat n.
+Proof. unfold zlen. now rewrite repeat_length. Qed.
+
+Theorem trim_text_attr_cs_lens wcw m text (attr cs : rle) sc ec spos epos pl pr :
+  calc_trim_text wcw m text 0 (zlen text) sc ec = Ok (spos, epos, pl, pr) ->
+  0 <= spos <= epos -> epos <= zlen text -> (pl = 0 \/ pl = 1) -> (pr = 0 \/ pr = 1) ->
+  nn attr -> nn cs -> rle_len attr = zlen text -> rle_len cs = zlen text ->
+  exists t a c, trim_text_attr_cs wcw m text attr cs sc ec = Ok (t, a, c) /\
+    zlen t = pl + (epos - spos) + pr /\ rle_len a = zlen t /\ rle_len c = zlen t.
+Proof.
+  intros E H1 H2 Hpl Hpr Na Nc La Lc. unfold trim_text_attr_cs. rewrite E.
+  assert (Sa : rle_len (rle_subseg attr spos epos) = epos - spos) by (apply rle_subseg_len; [exact Na|lia|lia]).
+  assert (Sc : rle_len (rle_subseg cs spos epos) = epos - spos) by (apply rle_subseg_len; [exact Nc|lia|lia]).
+  assert (St : zlen (py_slice text spos epos) = epos - spos).
+  { rewrite py_slice_in by lia. apply zlen_slice_in; lia. }
+  destruct Hpl as [-> | ->]; destruct Hpr as [-> | ->];
+    cbn [Z.eqb negb]; change (0 =? 0) with true; change (1 =? 0) with false; cbn [negb];
+    eexists _, _, _; (split; [reflexivity|]);
+    rewrite ?zlen_app, ?zlen_repeat, ?rle_append_modify_len, ?rle_prepend_modify_len, ?Sa, ?Sc, St;
+    change (Z.of_nat (Z.to_nat 0)) with 0; change (Z.of_nat (Z.to_nat 1)) with 1; repeat split; lia.
+Qed.
+
+(* ---------- apply_target_encoding end to end: every DEC character of a string ---------- *)
+Lemma assoc_last_in c m : forall found a, assoc_last c m found = Some a -> found = Some a \/ In (c, a) m.
+Proof.
+  induction m as [|[k v] t IH]; intros found a H; cbn [assoc_last] in H; [now left|].
+  destruct (IH _ _ H) as [Hf|Hin]; [|right; now right].
+  destruct (k =? c) eqn:E; [|now left]. inversion Hf. subst. right. left. f_equal. lia.
+Qed.
+
+Lemma alts_plain_ascii : Forall (fun p => 0 <= snd p < 128 /\ snd p <> esc_SO /\ snd p <> esc_SI) dec_charmap.
+Proof.
+  unfold dec_charmap.
+  let t := eval vm_compute in (combine dec_special_chars alt_dec_special_chars) in
+  change (combine dec_special_chars alt_dec_special_chars) with t.
+  repeat (apply Forall_cons; [vm_compute; repeat split; congruence|]). apply Forall_nil.
+Qed.
+
+Lemma dec_alt_plain c a : dec_alt c = Some a -> 0 <= a < 128 /\ a <> esc_SO /\ a <> esc_SI.
+Proof.
+  unfold dec_alt. intros H. destruct (assoc_last_in _ _ _ _ H) as [Hf|Hin]; [discriminate|].
+  pose proof alts_plain_ascii as F. rewrite Forall_forall in F. exact (F _ Hin).
+Qed.
+
+Lemma SO_SI_vals : esc_SO <> esc_SI /\ 0 <= esc_SO < 128 /\ 0 <= esc_SI < 128.
+Proof. vm_compute. repeat split; congruence. Qed.
+
+(* remove_si_so after translate_dec, as a two-state scan (P: plain context, D: a shift-in is pending) *)
+Fixpoint outP (s : list Z) : list Z :=
+  match s with
+  | [] => []
+  | c :: s' => match dec_alt c with Some a => esc_SO :: a :: outD s' | None => c :: outP s' end
+  end
+with outD (s : list Z) : list Z :=
+  match s with
+  | [] => [esc_SI]
+  | c :: s' => match dec_alt c with Some a => a :: outD s' | None => esc_SI :: c :: outP s' end
+  end.
+
+Lemma remove_cons x l : x <> esc_SI -> remove_si_so (x :: l) = x :: remove_si_so l.
+Proof.
+  intros Hx. destruct l as [|y l]; [reflexivity|].
+  change (remove_si_so (x :: y :: l)) with (if (x =? esc_SI) && (y =? esc_SO) then remove_si_so l else x :: remove_si_so (y :: l)).
+  destruct (x =? esc_SI) eqn:E; [lia|]. reflexivity.
+Qed.
+
+Lemma remove_si_other y l : y <> esc_SO -> remove_si_so (esc_SI :: y :: l) = esc_SI :: remove_si_so (y :: l).
+Proof.
+  intros Hy.
+  change (remove_si_so (esc_SI :: y :: l)) with (if (esc_SI =? esc_SI) && (y =? esc_SO) then remove_si_so l else esc_SI :: remove_si_so (y :: l)).
+  destruct (y =? esc_SO) eqn:E; [lia|]. now rewrite andb_false_r.
+Qed.
+
+Lemma remove_si_so_pair l : remove_si_so (esc_SI :: esc_SO :: l) = remove_si_so l.
+Proof.
+  change (remove_si_so (esc_SI :: esc_SO :: l)) with (if (esc_SI =? esc_SI) && (esc_SO =? esc_SO) then remove_si_so l else esc_SI :: remove_si_so (esc_SO :: l)).
+  destruct (esc_SI =? esc_SI) eqn:E1; [|lia]. destruct (esc_SO =? esc_SO) eqn:E2; [|lia]. reflexivity.
+Qed.
+
+Lemma remove_translate s :
+  ~ In esc_SO s -> ~ In esc_SI s ->
+  remove_si_so (translate_dec s) = outP s /\ remove_si_so (esc_SI :: translate_dec s) = outD s.
+Proof.
+  destruct SO_SI_vals as (Hne & _).
+  induction s as [|c s IH]; intros H1 H2; [split; reflexivity|].
+  assert (Hc1 : c <> esc_SO) by (intros ->; apply H1; now left).
+  assert (Hc2 : c <> esc_SI) by (intros ->; apply H2; now left).
+  destruct IH as [IHP IHD]; [intros H; apply H1; now right|intros H; apply H2; now right|].
+  unfold translate_dec in *. cbn [flat_map outP outD].
+  destruct (dec_alt c) as [a|] eqn:Ed.
+  - destruct (dec_alt_plain c a Ed) as (_ & Ha1 & Ha2). cbn [app]. split.
+    + rewrite remove_cons by exact Hne. rewrite remove_cons by exact Ha2. now rewrite IHD.
+    + rewrite remove_si_so_pair. rewrite remove_cons by exact Ha2. now rewrite IHD.
+  - cbn [app]. split.
+    + rewrite remove_cons by exact Hc2. now rewrite IHP.
+    + rewrite remove_si_other by exact Hc1. rewrite remove_cons by exact Hc2. now rewrite IHP.
+Qed.
+
+Section Full.
+Variable enc : Z -> list Z.
+Hypothesis enc_ascii : forall c, 0 <= c < 128 -> enc c = [c].
+
+Definition spec_out (c : Z) : list Z := match dec_alt c with Some a => [a] | None => enc c end.
+Definition spec_marks (c : Z) : list oz :=
+  match dec_alt c with Some _ => [Some esc_DEC_TAG] | None => repeat None (length (enc c)) end.
+
+(* the block structure of the encoded string, by the same two-state scan *)
+Fixpoint normP (s : list Z) : list Z * list (list Z * list Z) :=
+  match s with
+  | [] => ([], [])
+  | c :: s' =>
+      match dec_alt c with
+      | Some a => let '(d, p, bl) := normD s' in ([], (a :: d, p) :: bl)
+      | None => let '(p0, bl) := normP s' in (enc c ++ p0, bl)
+      end
+  end
+with normD (s : list Z) : list Z * list Z * list (list Z * list Z) :=
+  match s with
+  | [] => ([], [], [])
+  | c :: s' =>
+      match dec_alt c with
+      | Some a => let '(d, p, bl) := normD s' in (a :: d, p, bl)
+      | None => let '(p0, bl) := normP s' in ([], enc c ++ p0, bl)
+      end
+  end.
+
+Lemma repeat_app' {A} (x : A) a b : repeat x (a + b) = repeat x a ++ repeat x b.
+Proof. apply repeat_app. Qed.
+
+Lemma norm_facts s :
+  (forall c b, In c s -> In b (enc c) -> b <> esc_SO /\ b <> esc_SI) ->
+  (let '(p0, bl) := normP s in
+     flat_map enc (outP s) = blocks_bytes p0 bl /\ plain p0 /\ Forall block_ok bl /\
+     p0 ++ flat_map block_out bl = flat_map spec_out s /\
+     repeat None (length p0) ++ flat_map block_marks bl = flat_map spec_marks s) /\
+  (let '(d, p, bl) := normD s in
+     flat_map enc (outD s) = d ++ esc_SI :: p ++ flat_map block_bytes bl /\ plain d /\ plain p /\ Forall block_ok bl /\
+     d ++ p ++ flat_map block_out bl = flat_map spec_out s /\
+     repeat (Some esc_DEC_TAG) (length d) ++ repeat None (length p) ++ flat_map block_marks bl = flat_map spec_marks s).
+Proof.
+  destruct SO_SI_vals as (Hne & HSO & HSI).
+  induction s as [|c s IH]; intros Henc.
+  - cbn [normP normD outP outD flat_map]. rewrite (enc_ascii esc_SI HSI). unfold blocks_bytes, plain. cbn.
+    repeat split; constructor.
+  - destruct IH as [IHP IHD]; [intros c' b Hc' Hb; apply (Henc c' b); [now right|exact Hb]|].
+    cbn [normP normD outP outD].
+    destruct (dec_alt c) as [a|] eqn:Ed.
+    + destruct (dec_alt_plain c a Ed) as (Ha0 & Ha1 & Ha2).
+      destruct (normD s) as [[d p] bl]. destruct IHD as (E & Pd & Pp & Pb & Eo & Em).
+      assert (So : spec_out c = [a]) by (unfold spec_out; now rewrite Ed).
+      assert (Sm : spec_marks c = [Some esc_DEC_TAG]) by (unfold spec_marks; now rewrite Ed).
+      cbn [flat_map]. rewrite So, Sm, (enc_ascii esc_SO HSO), (enc_ascii a Ha0). cbn [app]. rewrite E. split.
+      * split.
+        { unfold blocks_bytes. cbn [app flat_map].
+          change (block_bytes (a :: d, p)) with (esc_SO :: (a :: d) ++ esc_SI :: p).
+          cbn [app]. f_equal. f_equal. now rewrite <- app_assoc. }
+        split; [constructor|]. split.
+        { constructor; [split; cbn [fst snd]; [constructor; [split; assumption|exact Pd]|exact Pp]|exact Pb]. }
+        cbn [flat_map]. change (block_out (a :: d, p)) with ((a :: d) ++ p).
+        change (block_marks (a :: d, p)) with (repeat (Some esc_DEC_TAG) (length (a :: d)) ++ repeat None (length p)).
+        cbn [app length repeat]. rewrite <- Eo, <- Em. split; [now rewrite <- app_assoc|]. now rewrite <- app_assoc.
+      * split; [reflexivity|]. split; [constructor; [split; assumption|exact Pd]|]. split; [exact Pp|]. split; [exact Pb|].
+        cbn [app length repeat]. rewrite <- Eo, <- Em. split; reflexivity.
+    + destruct (normP s) as [p0 bl]. destruct IHP as (E & Pp & Pb & Eo & Em).
+      assert (So : spec_out c = enc c) by (unfold spec_out; now rewrite Ed).
+      assert (Sm : spec_marks c = repeat None (length (enc c))) by (unfold spec_marks; now rewrite Ed).
+      assert (Pe : plain (enc c)).
+      { unfold plain. apply Forall_forall. intros b Hb. apply (Henc c b); [now left|exact Hb]. }
+      cbn [flat_map]. rewrite So, Sm. split.
+      * rewrite E. unfold blocks_bytes. split; [now rewrite app_assoc|]. split; [apply Forall_app; split; assumption|].
+        split; [exact Pb|]. rewrite <- Eo, <- Em. rewrite app_length, repeat_app'. split; now rewrite <- app_assoc.
+      * rewrite (enc_ascii esc_SI HSI). cbn [app]. rewrite E. unfold blocks_bytes.
+        split; [now rewrite <- app_assoc|]. split; [constructor|]. split; [apply Forall_app; split; assumption|].
+        split; [exact Pb|]. cbn [app length repeat]. rewrite <- Eo, <- Em. rewrite app_length, repeat_app'.
+        split; now rewrite <- !app_assoc.
+Qed.
+
+Theorem target_encoding_dec_string s :
+  (forall c b, In c s -> In b (enc c) -> b <> esc_SO /\ b <> esc_SI) ->
+  ~ In esc_SO s -> ~ In esc_SI s ->
+  fst (apply_target_encoding enc true s) = flat_map spec_out s /\
+  expand_runs (snd (apply_target_encoding enc true s)) = flat_map spec_marks s.
+Proof.
+  intros Henc H1 H2. unfold apply_target_encoding.
+  destruct (remove_translate s H1 H2) as [R _]. rewrite R.
+  pose proof (norm_facts s Henc) as [NP _]. destruct (normP s) as [p0 bl].
+  destruct NP as (E & Pp & Pb & Eo & Em). rewrite E.
+  destruct (ate_bytes_blocks p0 bl Pp Pb) as [B1 B2]. rewrite B1, B2. split; assumption.
+Qed.
+
+End Full.
